@@ -109,7 +109,8 @@ CLAIMED["C18"] = dict(
          "and notes parsers accept, every emitted entry is accepted by the dictionary text format and reads back as the same reading, written form and speech (C18_*_line_to_dictionary, via parser postconditions C18_parse_note_wf); "
          "the notes converter returns entries or takes its explicit unsupported-conjugation rejection, nothing else (C18_notes_total, C18_notes_fail_only_unsupported); every supported (class,row) except ワ行上二 conjugates "
          "in chokan-dic to a non-empty set with the row's core forms, okurigana beginning in the row (C18_base_verb_conjugates; the exception is proved: C18_base_verb_refuted, known finding F19). "
-         "All four parsers/converters are compiled from the repository into the harness and compared with the models on generated well-formed SKK and notes lines, mutations and random Unicode; emitted lines are read back by the real dictionary parser.",
+         "All four parsers/converters are compiled from the repository into the harness and compared with the models on generated well-formed SKK and notes lines, mutations and random Unicode; emitted lines are read back by the real dictionary parser; "
+         "the four converter PROGRAMS are run on generated EUC-JP files with undecodable lines in between and what they write is compared with what the per-line functions emit.",
     note="full for the modelled parsers and converters; totality of the implementation (no panic where the model returns a value) is what the correspondence observes. "
          "Three genuine defects repaired (F11a, F11b, F18), one recorded (F19). Trusted: Coq kernel; translators gen_skk (rule shapes pinned, classes generated) and gen_skknotes (okurigana table generated; notes grammar and converter text hash-pinned to the hand models Skk/Notes.v, Skk/NotesConv.v); "
          "EUC-JP decoding, line splitting and HashSet de-duplication in the converters' main.rs are not modelled.",
@@ -121,7 +122,8 @@ CLAIMED["C09"] = dict(
     technique="Coq proof (crash-state semantics of the extracted save program, rename discipline => every crash state is old-or-new) + strace conformance + crash-state materialisation on the real server",
     text="Kernel-checked: for the save program extracted from save_user_dictionary on every run, and arbitrary old and new contents, in EVERY state a process death can leave (before any operation, inside any write after any number of bytes) "
          "frequency.bin and user.dic are each exactly the old or exactly the new version (C09_crash_safe, generic in the program: C09_generic; the in-place save before repair F6 is refuted). "
-         "Every run traces a real save with strace and compares it with the extracted program, then materialises every operation boundary and byte-granular partial writes as directories, starts the real server on each and checks the restored state and that saving resumes.",
+         "Every run traces a real save with strace (every create / write / rename / unlink in the user directory, whatever the file) and compares it with the extracted program, then materialises every operation boundary and byte-granular partial writes of THAT trace as directories, "
+         "starts the real server on each and checks the restored state and that a word registered afterwards reaches user.dic through the periodic save.",
     category="proof",
     note="partial: process death only (no power loss / reordering below the VFS); atomic rename and sequential write are OS assumptions; restoring from complete files and 'saving keeps working' are observed on the implementation for the materialised states, not proved. " + PROTO_NOTE,
     ref="6/C09")
@@ -135,14 +137,16 @@ CLAIMED["C14"] = dict(
     technique="Coq proof (lock-ranking deadlock freedom and atomic-section theorems over the protocol extracted from the server source) + lock-site trace conformance + concurrent stress with injected delays",
     text="Kernel-checked: every handler and background task of the protocol extracted on every run acquires the mutexes in one global rank order (C14_protocol_ranked), so no reachable configuration of any number of concurrent handler instances and the tasks is a deadlock (C14_no_deadlock, induction over reachability); "
          "every read of dictionary+preferences and every commit happens while its guarding mutexes are held (C14_reads_and_commits_atomic) and, in EVERY reachable configuration, held by nobody else (C14_guarded_exclusive, induction over reachability with the mutual-exclusion invariant): "
-         "while a conversion is at its read no other thread is at a read or commit of dictionary or learned data (C14_read_is_snapshot), i.e. the read is one atomic snapshot ordered between the commits; a registered entry's words are merged in ONE dictionary section (C14_entry_atomic). "
+         "while a conversion is at its read no other thread is at a read or commit of dictionary or learned data (C14_read_is_snapshot), i.e. the read is one atomic snapshot ordered between the commits; a confirmation pops its session before it commits anything, so overlapping confirmations of one session learn once (C14_confirm_consumes_first); a registered entry's words are merged in ONE dictionary section (C14_entry_atomic). "
          "Every run validates the extraction against the lock-site trace of the running server and drives 1..32 concurrent connections with sleeps injected at the lock sites; outcomes must be sequentially explainable.",
     note="partial: the linearisation points (the read step, each commit step) are shown exclusive and therefore totally ordered per mutex; that the value computed from a snapshot equals the sequential model's answer is C05-C08's correspondence, not a composed theorem; interleavings are sampled only to validate the extraction. Fair scheduling assumed for completion. " + PROTO_NOTE,
     ref="6/C14")
 CLAIMED["C15"] = dict(
     technique="Coq proof (ordering facts over the extracted handler programs) + real-server confirmation immediately after the response with delays injected",
     text="Kernel-checked: in both conversion handlers extracted on every run the session is inserted into the store before the response is produced (C15_insert_before_respond, C15_responded_implies_stored; the send-to-recorder-then-respond shape before repair F5 is refuted); "
-         "a registration is sent to the single consuming updater before it is acknowledged (C15_registration_sent_before_ack, C15_single_consumer). Every run confirms candidates the instant the response arrives, with delays injected at the store sites, and checks that each confirmation is counted.",
+         "a registration is sent to the single consuming updater before it is acknowledged (C15_registration_sent_before_ack, C15_single_consumer); in the sequential server model the session a conversion issues is stored when it returns and survives ANY history "
+         "that neither confirms it nor restarts the server - no eviction, however many sessions pile up (C15_conversion_stores_session, C15_session_survives, induction over histories). "
+         "Every run confirms candidates the instant the response arrives, with delays injected at the store sites, lets 1100 conversions go unconfirmed while confirming fresh ones at 127..1025 outstanding and the very first one at the end, and checks that each confirmation is counted.",
     note="partial: mpsc delivery and the updater's liveness are assumptions (observed by quiescing the real server). " + PROTO_NOTE,
     ref="6/C15")
 PENDING = {}
